@@ -120,12 +120,16 @@ PROPS = {
         "trusted_base": COMMON_TB + ["the ASCII lexer model transliterates the nom combinators; serde_json and the FITS card readers are not modelled"],
         "assumptions": COMMON_ASSUME + [
             "totality is a theorem about the MODEL reader only (a total Lean function); for the real decoders (FITS, MOM, skymap, stream, JSON, ST variants, store loaders) it is exercised by mutation fuzzing with every panic reported (test level)",
-            "mutations keep header counts small: a NAXIS2 of billions would make from_fits_nuniq reserve memory unrelated to the input and abort the harness process (see DESIGN.md §10, not explored)",
-            "multi-order-map / sky-map readers and store loaders are not driven by this run"],
+            "allocation: header counts of 10^12 / 4*10^9 are tried in child processes limited to 3 GB of address space (an abort on allocation is a failure); smaller over-allocations are not measured",
+            "multi-order-map and sky-map readers are driven from the two real files shipped under /repo/resources/Skymap (skipped with a counter if they are missing)"],
         "rule": "per {space,time,frequency} x {u16,u32,u64} x 60 MOCs (400 thorough): 12 (40) single-field mutations of the valid ASCII document — first index outside / last inside the domain, range end "
                 "outside, reversed range, inclusive end = type maximum, offset reaching the maximum, number not representable, truncation at a random offset, one character replaced, two documents glued "
                 "(overlaps) — each decoded by the real reader and by the model (same verdict, depth and ranges); the same boundary numbers as JSON; 8 (30) mutated FITS files and 4 (10) mutated streaming "
-                "documents (any panic is a failure); + 500 (3000) random token soups through the ASCII, JSON and FITS readers. distinct_nontrivial = distinct op lines.",
+                "documents (any panic is a failure); + 500 (3000) random token soups through the ASCII, JSON and FITS readers; + 60 (400) mutations of each of six base files (range FITS u64 and u16, NUNIQ FITS, "
+                "ST FITS v2, a 200-row multi-order map, a sky map): one header card set to a boundary value (NAXIS1/2, MOCORDER, MOCORD_*, TFORM1, ORDERING, MOCVERS, ...), one data word set to a boundary value "
+                "(NUNIQ 0..3, codes beyond the deepest depth, all ones, sign bit), truncation, a card blanked or replaced by END, random header bytes — each through from_fits_ivoa (fully consumed), "
+                "from_fits_multiordermap, from_fits_skymap and the three store loaders; giant header counts in child processes limited to 3 GB; 19 boundary text documents through the 7 text loaders of the "
+                "store (what is accepted must be usable). distinct_nontrivial = distinct op lines.",
         "explanation": "theorems: accepted ASCII documents are valid (depth within maximum, every element inside the domain of its depth, pairwise non-overlapping, canonical result covering exactly the elements), no number leaves the index type, model reader total; mutation correspondence",
     },
     "C13": {
